@@ -417,6 +417,10 @@ func Drive(o *DriveOpts) int {
 			trace []uint64
 			key   string
 			viol  *Violation
+			// alts: further runs of the batch that reported the same violation key (tried when the first one
+			// does not reproduce alone: a run whose failure was caused by state that an earlier run left in the
+			// worker does not, a run that produces the failure itself does)
+			alts []cand
 		}
 		var cands []cand
 		if len(out.fatals) > 0 || len(out.violations) > 0 {
@@ -465,13 +469,19 @@ func Drive(o *DriveOpts) int {
 					knownHits[k.Key]++
 					continue
 				}
-				cands = append(cands, cand{f.run, readTraceFile(tf), v.Key(), v})
+				cands = append(cands, cand{f.run, readTraceFile(tf), v.Key(), v, nil})
 				os.Remove(tf)
 			}
 			for _, k := range sortedViolKeys(out.violations) {
 				rs := out.violations[k]
 				sort.Slice(rs, func(i, j int) bool { return rs[i].Run < rs[j].Run })
-				cands = append(cands, cand{rs[0].Run, rs[0].Trace, k, rs[0].Violation})
+				c := cand{rs[0].Run, rs[0].Trace, k, rs[0].Violation, nil}
+				for _, r := range rs[1:] {
+					if len(c.alts) < 6 {
+						c.alts = append(c.alts, cand{r.Run, r.Trace, k, r.Violation, nil})
+					}
+				}
+				cands = append(cands, c)
 			}
 			os.MkdirAll(filepath.Join(o.VerifDir, "replays"), 0o755)
 			head, dirty := repoState()
@@ -496,6 +506,18 @@ func Drive(o *DriveOpts) int {
 					// fall back to the unshrunk trace
 					min = c.trace
 					final, err = ev.eval(c.run, min, true)
+					for _, a := range c.alts {
+						if err == nil && keyOf(final) == c.key {
+							break
+						}
+						fmt.Printf("note: the violation %s of run %d did not reproduce when the run was re-executed alone; trying run %d, which reported the same\n", c.key, c.run, a.run)
+						c.run, c.trace, c.viol = a.run, a.trace, a.viol
+						min = ev.shrink(c.run, c.trace, c.key, 400, budget)
+						if final, err = ev.eval(c.run, min, true); err != nil || keyOf(final) != c.key {
+							min = c.trace
+							final, err = ev.eval(c.run, min, true)
+						}
+					}
 					if err != nil || keyOf(final) != c.key {
 						// not repeatable in a process of its own: not a result of this machinery
 						fmt.Printf("INFRA: the violation %s of run %d did not reproduce when the run was re-executed alone\n", c.key, c.run)
